@@ -462,6 +462,9 @@ func (in *Interp) lookup(x *ssa.Lookup, m Value, key Value) Value {
 	case *Term: // string index
 		return in.strIndex(mm, key.(*Term), x.Index.Type())
 	case *Map:
+		if r, ok := in.mapLookupMerged(x, mm, key); ok {
+			return r
+		}
 		var v Value
 		found := false
 		if mm != nil {
@@ -476,6 +479,40 @@ func (in *Interp) lookup(x *ssa.Lookup, m Value, key Value) Value {
 		return copyVal(v)
 	}
 	panic(in.abort("Lookup on %T", m))
+}
+
+// mapLookupMerged handles a lookup with a symbolic scalar key in a map whose values are scalars of
+// one sort without forking: the result is an if-then-else chain over the key equalities.
+func (in *Interp) mapLookupMerged(x *ssa.Lookup, m *Map, key Value) (Value, bool) {
+	if m == nil || len(m.entries) < 2 {
+		return nil, false
+	}
+	k, ok := key.(*Term)
+	if !ok || k.IsConst() {
+		return nil, false
+	}
+	zero, ok := in.zero(under(x.X.Type()).(*types.Map).Elem()).(*Term)
+	if !ok {
+		return nil, false
+	}
+	tb := in.tb
+	val := zero
+	found := tb.Bool(false)
+	for i := len(m.entries) - 1; i >= 0; i-- {
+		e := m.entries[i]
+		ek, ok1 := e.k.(*Term)
+		ev, ok2 := in.force(e.v).(*Term)
+		if !ok1 || !ok2 || ev.Sort != zero.Sort {
+			return nil, false
+		}
+		eq := tb.Eq(ek, k)
+		val = tb.Ite(eq, ev, val)
+		found = tb.Or(eq, found)
+	}
+	if x.CommaOk {
+		return Tuple{val, found}, true
+	}
+	return val, true
 }
 
 func (in *Interp) mapFind(m *Map, key Value) *mapEntry {
